@@ -87,11 +87,11 @@ CHECKS = {
          "and that in strict mode OK implies exactly the declared length; the counting law is proved for stored folders and is an explicit hypothesis for MSZIP/Quantum/LZX. "
          "CHM and OAB have no theorem yet. Everything is validated by the written-vs-declared oracle on the implementation (well-formed, malformed, fixtures, short writes, salvage) and model agreement."
          " CHM: for every file content and section-0 member extract writes at most the declared length, OK means exactly the declared bytes of the file (C07Chm)."
-         " The counting law itself is now a theorem for MSZIP and LZX (C07Decoders: every source, fuel, state, request; written <= asked, OK => exactly asked), so CAB written <= declared holds for stored/MSZIP/LZX folders, CHM compressed members and OAB files and patches with no decoder hypothesis; Quantum's law is proved too (every method now), and strict-mode OK => exactly declared is unconditional for stored and MSZIP folders (joint decoder/feeder invariant); for LZX/Quantum folders the read-error law remains a hypothesis."),
+         " The counting law itself is now a theorem for MSZIP and LZX (C07Decoders: every source, fuel, state, request; written <= asked, OK => exactly asked), so CAB written <= declared holds for stored/MSZIP/LZX folders, CHM compressed members and OAB files and patches with no decoder hypothesis; Quantum's law is proved too (every method now), and strict-mode OK => exactly declared is unconditional for stored and MSZIP folders (joint decoder/feeder invariant); and, with the read-error law walked through LZX and Quantum too, for every compression type (C07_cab_ok_complete)."),
    note=PROOF_NOTE, technique="Lean 4 theorems (case analysis over cabd_extract's phases + induction for the stored decoder) + written/declared/status oracle on the implementation"),
  "C08": dict(category="proof",
    text=("CAB: theorems that whenever the cached decoder is not re-usable for a request (other folder, backward seek, dead decoder) extract behaves exactly like a fresh instance, and C08_stored_any_order - for a stored folder ANY list of extract() calls on members inside the folder's data (forward through the cached decoder, backward through a rebuilt one, repeated) returns OK with exactly each member's bytes, the fresh-instance result. "
-         "MSZIP: the chunking law is a theorem (C08Mszip: a then b = a+b, same bytes and final state, both directions; any split; a decoder-level model of the re-use rule serves any request list in any order), lifted to cabd's decoder call and through cabd_extract itself (C08MszipCab: any list of extract() calls on members of an MSZIP folder that decodes returns each member's slice of the one-shot result; single-cabinet folders unconditionally, multi-cabinet ones under a static fuel condition of the model); the LZX/Quantum chunking laws are not proved. These are covered by the oracle: in random histories (repetition, interleaved archives, damaged folders, two cabinets with a damaged second one) over CAB sets and CHM files, "
+         "MSZIP: the chunking law is a theorem (C08Mszip: a then b = a+b, same bytes and final state, both directions; any split; a decoder-level model of the re-use rule serves any request list in any order), lifted to cabd's decoder call and through cabd_extract itself (C08MszipCab: any list of extract() calls on members of an MSZIP folder that decodes returns each member's slice of the one-shot result; single-cabinet folders unconditionally, multi-cabinet ones under a static fuel condition of the model); the LZX chunking law is not proved; Quantum's converse law is false for windows < 32 KiB (known finding D2); CHM: section-0 members are history-free from every consistent cache state (C08Chm). These are covered by the oracle: in random histories (repetition, interleaved archives, damaged folders, two cabinets with a damaged second one) over CAB sets and CHM files, "
          "every call is compared with the same member on a fresh decompressor; plus model/implementation agreement per call."),
    note=PROOF_NOTE, technique="Lean 4 theorems (cache decision of cabd_extract; invariant over call sequences for stored folders) + history-vs-fresh oracle + differential runs"),
  "C02": dict(category="proof",
